@@ -164,6 +164,13 @@ def ask(ureg, q, held=None):
             r = ureg.get_name(q[1], case_sensitive=False)
         elif kind == "name":
             r = (ureg.get_name(q[1]), ureg.get_symbol(q[1]))
+        elif kind == "convert_as":
+            # the same conversion with magnitudes of several number types: what one of them leaves in the registry must not reach the others
+            from decimal import Decimal as _D
+
+            mk_ = {"int": int, "float": float, "Fraction": Fraction, "Decimal": lambda v: _D(str(v))}[q[1]]
+            v_ = ureg.Quantity(mk_(q[2]), q[3]).to(q[4]).magnitude
+            r = (type(v_).__name__, repr(v_) if not isinstance(v_, float) else repr(round(v_, 12)))
         elif kind == "root":
             r = ureg.get_root_units(q[1])
         elif kind == "base":
@@ -192,7 +199,7 @@ def ask(ureg, q, held=None):
             raise ValueError(kind)
         return ("ok", norm(r))
     except Exception as e:  # noqa: BLE001
-        if isinstance(e, ValueError) and kind not in ("convert", "parse_units", "parse_expr", "parse_units_ci", "parse_expr_ci", "name_ci", "root", "base", "base_sys", "dim", "compat", "format", "compact", "to_base", "to", "held", "members"):
+        if isinstance(e, ValueError) and kind not in ("convert", "parse_units", "parse_expr", "parse_units_ci", "parse_expr_ci", "name_ci", "root", "base", "base_sys", "dim", "compat", "format", "compact", "to_base", "to", "held", "members", "convert_as"):
             raise
         return ("err", type(e).__name__)
 
@@ -389,7 +396,12 @@ def _ops_strategy(units, exprs, contexts, systems, groups):
     # motif: to_compact before and after a power-of-1000 prefix is defined
     kq = [("Q", "compact", 1000, "kilafoo"), ("Q", "compact", 1000, "kilafoo"), ("Q", "format", 1000, "kilafoo", "#~")] if False else [("Q", "compact", 1000, "kilafoo"), ("Q", "compact", 3, "bar")]
     compactmotif = st.just(kq + [("S", "define", 6)] + kq + [("Q", "compact", 1000, "megaxfoo")])
-    return st.one_of(free, free, motif, late(), retry, sysmotif, cpmotif, compactmotif).map(lambda ops: {"ops": [list(o) for o in ops]})
+    # motif: listings of one dimension restricted to a group, to a system, unrestricted, in varying order (what one listing returns is not the table the
+    # next one is computed from), optionally with the default system off or inside a rule context
+    cu_ = st.sampled_from([u_ for u_ in units if u_ in ("xm", "foo", "gfoo", "gbar", "xs", "baz", "gbaz")] or units)
+    listmotif = st.tuples(st.sampled_from([[], [("S", "system", None)], [("S", "enable", "ca", 0)]]), cu_, st.lists(st.sampled_from([g for g in groups] + [None, None] + systems), min_size=3, max_size=6)).map(
+        lambda t: list(t[0]) + [("Q", "compat", t[1], g_) for g_ in t[2]] + [("Q", "compat", t[1], None)])
+    return st.one_of(free, free, motif, late(), retry, sysmotif, cpmotif, compactmotif, listmotif).map(lambda ops: {"ops": [list(o) for o in ops]})
 
 
 def case_history(case, col=None):
@@ -519,7 +531,11 @@ def run_default(task, tier, seed, col):
                 ps = R_.prefixes[p_].symbol or p_
                 us = R_.units[u_].symbol or u_
                 named.append([("Q", "name", s_), ("Q", "root", s_), ("Q", "root", ps + us), ("Q", "root", p_ + u_ + "s"), ("Q", "name", s_), ("Q", "root", s_), ("Q", "format", 3, s_, "~")])
-    strat = st.one_of(free, free, coll, *([st.sampled_from(named)] if named else [])).map(lambda ops: {"ops": [list(o) for o in ops]})
+    # motif: one pair of units converted with magnitudes of different number types in varying order
+    PAIRS = [("inch", "meter"), ("pound", "kilogram"), ("hour", "second"), ("kilometer", "meter"), ("calorie", "joule")]
+    typed = st.tuples(st.sampled_from(PAIRS), st.lists(st.sampled_from(["Decimal", "float", "int", "Fraction", "Decimal", "float"]), min_size=3, max_size=6), st.booleans()).map(
+        lambda t: [("Q", "convert_as", ty_, 3, *(t[0] if not (t[2] and i_ % 2) else t[0][::-1])) for i_, ty_ in enumerate(t[1])])
+    strat = st.one_of(free, free, coll, typed, *([st.sampled_from(named)] if named else [])).map(lambda ops: {"ops": [list(o) for o in ops]})
     hyp_search(col, strat, lambda c: case_default(c, col), max_examples=25 if tier == "quick" else 600, seed=seed * 223 + task["shard"], shrink_budget_s=90)
 
 
